@@ -328,11 +328,15 @@ func (w *walker) cond(e ast.Expr, st *state, kt, kf func(*state)) {
 	w.expr(e, st, func(st *state, v Value) {
 		fr := st.fr()
 		ki, neg := w.atomKey(e, fr, st)
+		byStore := false
 		take := func(st *state, val bool, forced bool) {
 			st = st.clone()
 			ev := &Event{Kind: KBranch, Pos: e.Pos(), Node: e, Cond: e, CondVal: val, CondKey: ki.key}
 			if forced {
 				ev.Int = 1
+			}
+			if forced && byStore {
+				ev.Int |= 4
 			}
 			if neg {
 				ev.Int |= 2
@@ -348,10 +352,16 @@ func (w *walker) cond(e ast.Expr, st *state, kt, kf func(*state)) {
 			}
 		}
 		if v.Kind == VBool {
+			// decided by the values the path bound (a local assigned a constant, a constant argument):
+			// not a compile-time constant of the source
+			if tv, isC := fr.Info().Types[e]; !isC || tv.Value == nil {
+				byStore = true
+			}
 			take(st, v.Bool, true)
 			return
 		}
-		if pv, ok := st.facts.lookup(ki); ok {
+		if pv, ok, fromStore := st.facts.lookupSrc(ki); ok {
+			byStore = fromStore
 			take(st, pv != neg, true)
 			return
 		}
@@ -362,6 +372,10 @@ func (w *walker) cond(e ast.Expr, st *state, kt, kf func(*state)) {
 
 // Forced reports whether a branch event was decided by a constant or an earlier decision.
 func (e *Event) Forced() bool { return e.Kind == KBranch && e.Int&1 != 0 }
+
+// ForcedByStore reports whether a branch event was decided by a value the path itself assigned (or
+// bound) before it, rather than by an earlier branch decision or a compile-time constant.
+func (e *Event) ForcedByStore() bool { return e.Kind == KBranch && e.Int&4 != 0 }
 
 // ---------------------------------------------------------------------------------------------
 // assignments
@@ -476,13 +490,13 @@ func (w *walker) store(lhs ast.Expr, val Value, node ast.Node, rhs ast.Expr, idx
 				switch {
 				case val.Kind == VBool:
 					ki.key = key
-					w.setFact(st, ki, val.Bool)
+					w.setStoreFact(st, ki, val.Bool)
 				case val.Kind == VNil:
 					ki.key = "(" + key + " == nil)"
-					w.setFact(st, ki, true)
+					w.setStoreFact(st, ki, true)
 				case isNonNilVal(val) || rhs != nil && idx < 0 && w.isNonNilExpr(rhs, fr):
 					ki.key = "(" + key + " == nil)"
-					w.setFact(st, ki, false)
+					w.setStoreFact(st, ki, false)
 				}
 			}
 		}
